@@ -90,7 +90,8 @@ def filterLoop (filter : Bytes → Bool) : Bytes → FState → Nat → Bytes
         c :: filterLoop filter rest .decl 1
       else
         -- tagEnd: where an HTML parser ends the tag, or the end of the raw text
-        let tagLen := htmlTagEnd rest
+        -- (for an end tag the scan starts after the slash, at the name)
+        let tagLen := if rest.head? == some 0x2F then 1 + htmlTagEnd (rest.drop 1) else htmlTagEnd rest
         let nameLen := htmlTagNameEnd (rest.take tagLen)
         let escaped := filter (lower (rest.take nameLen))
         (if escaped then [0x26, 0x6C, 0x74, 0x3B] else [c])
